@@ -1,5 +1,5 @@
 From AQ Require Import lib.Base model.Codec model.Varint model.RangeSet model.AckFrame model.Header.
-From AQ Require Import model.TlsCodec model.TParams proofs.TParamsProofs proofs.TParamsRoundtrip.
+From AQ Require Import model.TlsCodec model.TParams proofs.TParamsProofs proofs.TParamsRoundtrip proofs.TParamsReencode.
 From AQ Require Import proofs.CodecProofs proofs.VarintProofs proofs.AckFrameProofs proofs.HeaderProofs proofs.TlsCodecProofs.
 From AQ Require Import proofs.TlsListProofs proofs.TlsRoundtrip proofs.TlsTotal proofs.TlsDumpInverse.
 
@@ -365,3 +365,14 @@ Theorem tls_roundtrip_records :
      decode_as pull_certificate_verify tk_certificate_verify (bytes ++ rest) = Ok (m, rest)).
 Proof. exact TlsDumpInverse.tls_roundtrip_records. Qed.
 Print Assumptions tls_roundtrip_records.
+
+(* ---- transport parameters: decode, then re-encode ---- *)
+Theorem tparams_reencode : forall bs r, bytes_ok bs -> Zlen bs <= 65536 -> pull_qtp bs = Ok r ->
+  qtp_wf r = true /\ exists bytes', flatten (push_qtp r) = Ok bytes' /\ pull_qtp bytes' = Ok r.
+Proof. exact TParamsReencode.tparams_reencode. Qed.
+Print Assumptions tparams_reencode.
+
+Theorem tparams_reencode_limit : forall b, 65536 < Zlen b ->
+  flatten (push_quic_transport_parameters [(0, PBytes b)]) = Err E_WRITE.
+Proof. exact TParamsReencode.tparams_reencode_limit. Qed.
+Print Assumptions tparams_reencode_limit.
